@@ -10,6 +10,12 @@ LEVEL_TEXT = ("Bounded symbolic execution of the real baize functions (imported 
               "bounds written in the evidence file is claimed.")
 
 CHECKS = {
+    "C01": dict(
+        technique="fork-on-branch symbolic execution of the real multipart decoder / stream helpers / form accessors over symbolic content bytes (z3), chunkings enumerated",
+        design_ref="DESIGN.md §4 C01",
+        note="Trusted: z3, CPython, forksym proxies and ReShim (every path's model is replayed on the unshimmed code with the real "
+             "UploadFile and must agree). Content bytes are solver variables (<=3 quick / <=5 thorough per form); form templates, "
+             "boundaries, part names and cut positions are enumerated recipes; framing uses CRLF; field text is ASCII."),
     "C03": dict(
         technique="fork-on-branch symbolic execution of the real parse_range with z3 (unbounded LIA integers; ReShim-interpreted regex over symbolic Latin-1 chars)",
         design_ref="DESIGN.md §4 C03",
